@@ -125,8 +125,12 @@ def run(ctx, which):
                     got_ident = bytes(s.storage_set_identifier)
                     tr.append(dict(op='sul', seq=s.storage_unit_sequence_number, maxlen=s.maximum_record_length,
                                    ident=ident_cls if got_ident == IDENTS[ident_cls][:60].ljust(60, b' ') else 'CHANGED'))
+                    # two observation modes: inspect each record as it is yielded (streaming), or keep all yielded
+                    # records and inspect them after the iteration has finished (retained objects must stay true)
+                    retained = (ci % 2 == 1)
+                    flds = list(fr.iter_logical_records()) if retained else fr.iter_logical_records()
                     i = 0
-                    for fld in fr.iter_logical_records():
+                    for fld in flds:
                         i += 1
                         k = min(i, len(recs))
                         data = bytes(fld.logical_data.bytes)
@@ -161,6 +165,7 @@ def run(ctx, which):
                         ln = rng.choice([-1, 0, 1, 2, 3, 10, L, L + 5, rng.randint(0, L + 2), max(0, b - o + 1)])
                         hist.append((k, o, ln))
                     rng.shuffle(hist)
+                    kept = []
                     for (k, o, ln) in hist[:nget + len(recs)]:
                         f.start()
                         fld = ix.get_file_logical_data(k - 1, o, ln)
@@ -169,6 +174,13 @@ def run(ctx, which):
                         tr.append(dict(op='get', k=k, off=o, len=ln, ranges=G.project(k, data, recs[k - 1]['len'], hint=o),
                                        reads=[list(x) for x in sorted(set(reads))],
                                        kind='E' if fld.lr_is_eflr else 'I', type=fld.lr_type))
+                        if len(kept) < 4:
+                            kept.append((k, o, ln, fld))
+                    # results returned earlier must still be what they were (no aliasing with reader state)
+                    for (k, o, ln, fld) in kept:
+                        data = bytes(fld.logical_data.bytes)
+                        tr.append(dict(op='get', k=k, off=o, len=ln, ranges=G.project(k, data, recs[k - 1]['len'], hint=o),
+                                       reads=[], kind='E' if fld.lr_is_eflr else 'I', type=fld.lr_type, retained=True))
         except Exception as e:   # the reader raised on a conformant file
             tr.append(dict(op='exception', err='%s: %s' % (type(e).__name__, str(e)[:200])))
         traces.append(tr)
